@@ -77,39 +77,6 @@ def retain (s : SMap w V) (f : Pfx w → V → Bool) : SMap w V := s.filter (fun
 
 def collect (xs : List (Pfx w × V)) : SMap w V := xs.foldl (fun s e => update s e.1 e.2) []
 
-/-! ### set operations on two entry lists -/
-
-inductive UTag (w : Nat) (L R : Type) where
-  | left (p : Pfx w) (l : L) (lpmR : Option (Pfx w × R))
-  | right (p : Pfx w) (lpmL : Option (Pfx w × L)) (r : R)
-  | both (pl pr : Pfx w) (l : L) (r : R)
-
-/-- union: sorted merge; an entry stored on both sides is `both` (carrying both representations) -/
-def union {L R : Type} (a : SMap w L) (b : SMap w R) : List (UTag w L R) :=
-  let ls : List (Key × UTag w L R) := a.filterMap (fun e =>
-    match lookup b e.1 with
-    | some f => some (key e.1, .both e.1 f.1 e.2 f.2)
-    | none => some (key e.1, .left e.1 e.2 (lpm b e.1)))
-  let rs : List (Key × UTag w L R) := b.filterMap (fun f =>
-    match lookup a f.1 with
-    | some _ => none
-    | none => some (key f.1, .right f.1 (lpm a f.1) f.2))
-  (rs.foldl (fun acc x =>
-      let rec ins : List (Key × UTag w L R) → List (Key × UTag w L R)
-        | [] => [x]
-        | y :: ys => if keyLt x.1 y.1 then x :: y :: ys else y :: ins ys
-      ins acc) ls).map (·.2)
-
-def inter {L R : Type} (a : SMap w L) (b : SMap w R) : List (Pfx w × L × R) :=
-  a.filterMap (fun e => (lookup b e.1).map (fun f => (e.1, e.2, f.2)))
-
-def diff {L R : Type} (a : SMap w L) (b : SMap w R) : List (Pfx w × L × Option (Pfx w × R)) :=
-  a.filterMap (fun e =>
-    match lookup b e.1 with
-    | some _ => none
-    | none => some (e.1, e.2, lpm b e.1))
-
-def covDiff {L R : Type} (a : SMap w L) (b : SMap w R) : List (Pfx w × L) :=
-  a.filter (fun e => (cover b e.1).isEmpty)
+/-! The specification of the set operations on two entry lists is in `PT/SetSpec.lean`. -/
 
 end Spec
